@@ -62,6 +62,7 @@ OPS += [
     ['set', 'str', 's', None, None], ['set', 'str', 'sl', None, 1], ['set', 'str', 'sl', None, 2], ['optset', 'str', 'sl', None, 0], ['setlist', 'sl', 'str', ['p', None]],
     ['addlist', 'sl', 'str', [None]],
     # far indices and positions (meaningful from the large start state)
+    ['rmtsecself', 'sec', 0], ['rmtsecself', 'sec', 1], ['rmtsecself', 'msec', 0],
     ['addtsec', 'sec', ' t1'], ['addtsec', 'sec', 't1 '], ['rmtsec', 'sec', ' t1'], ['rmtsec', 'sec', 't1 '], ['set', 'int', "sec=' t1'|x", 3, None], ['addtsec', 'sec', '\tt2'],
     ['set', 'str', 's', 'L' * 5000, None], ['set', 'str', 'sl', 'M' * 4097, 1], ['addlist', 'sl', 'str', ['a', 'N' * 70000, 'b']], ['setlist', 'sl', 'str', ['O' * 4096, 'P' * 4095]],
     ['addtsec', 'longsec_' + 'n' * 70, 'T' * 300], ['set', 'int', 'longsec_' + 'n' * 70 + '=' + 'T' * 300 + '|x', 5, None], ['rmsec', 'longsec_' + 'n' * 70 + '=' + 'T' * 300],
